@@ -223,6 +223,11 @@ func (r *Resolver) AutoTA() {
 		return
 	}
 
+	// A revocation an earlier run accepted and could persist nowhere
+	// is not on disk: without it the stale state file read above would
+	// put the revoked key back into the live set.
+	tombstones = r.withUnpersistedRevocations(tombstones)
+
 	// Copy legacy Revoked/Removed entries into the material-keyed
 	// tombstone store so tag collisions with a future legitimate KSK
 	// can't suppress that future key. Keep the markers in kskCurrent
@@ -586,6 +591,7 @@ func (r *Resolver) AutoTA() {
 	if tombErr != nil {
 		zlog.Error("Refresh trust anchor tombstones failed — revocation kept in state as StateRevoked for next-run retry", "error", tombErr.Error())
 	} else {
+		r.forgetUnpersistedRevocations()
 		// Tombstones are durable; drop the in-state markers for
 		// both this run's newly-revoked keys and any legacy
 		// Revoked/Removed entries migrated above.
@@ -616,6 +622,7 @@ func (r *Resolver) AutoTA() {
 	// tombstones/state write failed for an orthogonal reason.
 	if tombErr != nil && stateErr != nil && newRevocation {
 		zlog.Error("Refresh trust anchors: both tombstones and state writes failed during a new revocation — clearing in-memory trust set to fail closed")
+		r.rememberUnpersistedRevocation(tombstones)
 		r.Lock()
 		r.rootKeys = nil
 		r.Unlock()
@@ -899,6 +906,35 @@ func readFromTAFile(filename string) (TrustAnchors, error) {
 
 func writeToTAFile(filename string, kskCurrent TrustAnchors) error {
 	return atomicGobWrite(filename, &kskCurrent)
+}
+
+// rememberUnpersistedRevocation keeps the revocation store of a run whose
+// writes both failed. RFC 5011 revocation is permanent; with nothing on
+// disk the process itself has to remember it.
+func (r *Resolver) rememberUnpersistedRevocation(t Tombstones) {
+	r.Lock()
+	r.unpersistedRevocations = t
+	r.Unlock()
+}
+
+// withUnpersistedRevocations returns t with every remembered, not yet
+// persisted revocation added.
+func (r *Resolver) withUnpersistedRevocations(t Tombstones) Tombstones {
+	r.RLock()
+	defer r.RUnlock()
+	for fp, ts := range r.unpersistedRevocations {
+		if _, ok := t[fp]; !ok {
+			t[fp] = ts
+		}
+	}
+	return t
+}
+
+// forgetUnpersistedRevocations runs once the tombstone store is durable.
+func (r *Resolver) forgetUnpersistedRevocations() {
+	r.Lock()
+	r.unpersistedRevocations = nil
+	r.Unlock()
 }
 
 func readTombstones(filename string) (Tombstones, error) {
